@@ -34,6 +34,32 @@ def coverParamsOk (k d : Nat) (splitNum splitDen : Int) (maxDictSize : Nat) : Bo
 def fastCoverParamsOk (k d : Nat) (splitNum splitDen : Int) (maxDictSize f accel : Nat) : Bool :=
   coverParamsOk k d splitNum splitDen maxDictSize && (d == 6 || d == 8) && decide (0 < f) && decide (f ≤ 31) && decide (0 < accel) && decide (accel ≤ 10)
 
+/-! ### epochs of the build loops (COVER_computeEpochs) and the d-mer count they are cut from -/
+
+/-- COVER_computeEpochs(maxDictSize, nbDmers, k, passes) = (epochs.num, epochs.size); `none` where the C code divides by zero
+(k = 0, passes = 0, or no d-mer at all: `nbDmers / MIN(k*10, nbDmers)`).  U32 arithmetic: faithful while k*10 < 2^32. -/
+def computeEpochs (maxDictSize nbDmers k passes : Nat) : Option (Nat × Nat) :=
+  if k = 0 ∨ passes = 0 then none
+  else
+    let num := max 1 (maxDictSize / k / passes)
+    let size := nbDmers / num
+    if k * 10 ≤ size then some (num, size)
+    else
+      let size2 := min (k * 10) nbDmers
+      if size2 = 0 then none else some (nbDmers / size2, size2)
+
+/-- number of d-mer positions of a training part of `trainSize` bytes, as the build loops need it (≥ 1): `none` = too small.
+COVER_ctx_init / FASTCOVER_ctx_init compute `trainSize - MAX(d,8) + 1` in size_t after a size check. -/
+def dmerCount (trainSize d : Nat) : Option Nat :=
+  if trainSize < max d 8 then none else some (trainSize - max d 8 + 1)
+
+/-- what COVER_ctx_init / FASTCOVER_ctx_init must answer for the build loops to be safe: the d-mer count of the TRAINING part, or `none` =
+srcSize_wrong (whole set below max(d,8) bytes or not below 2^32-1, fewer than 5 training samples, no test sample, training part too small) -/
+def ctxInit (total trainSize nbTrain nbTest d : Nat) : Option Nat :=
+  if total < max d 8 ∨ 2 ^ 32 - 1 ≤ total then none
+  else if nbTrain < 5 ∨ nbTest < 1 then none
+  else dmerCount trainSize d
+
 /-! ### the optimisers' shared result holder -/
 
 structure Best where
